@@ -60,6 +60,7 @@ func init() {
 	os.Setenv("vt", "true")
 	os.Unsetenv("vu")
 }
+
 var binaryNames = map[string]string{"PIPE": "|", "SHORT_PIPE": "|", "UNION": ",", "ADD": "+", "SUBTRACT": "-", "MULTIPLY": "*", "DIVIDE": "/",
 	"MODULO": "%", "EQUALS": "==", "NOT_EQUALS": "!=", "AND": "and", "OR": "or", "ALTERNATIVE": "//",
 	"ADD_ASSIGN": "+=", "SUBTRACT_ASSIGN": "-=", "MULTIPLY_ASSIGN": "*="}
@@ -147,6 +148,11 @@ func exprText(e M) string {
 			return "strenv(" + e["name"].(string) + ")"
 		}
 		return "env(" + e["name"].(string) + ")"
+	case "GET_PARENT":
+		if l, ok := e["level"]; ok {
+			return fmt.Sprintf("parent(%d)", int(num(l)))
+		}
+		return "parent"
 	case "WITH":
 		return "with(" + exprText(sub(e, "l")) + "; " + exprText(sub(e, "r")) + ")"
 	case "SET_PATH":
